@@ -218,3 +218,62 @@ func H_C17_reject_e2e() {
 		}
 	})
 }
+
+// zzGated is a peer connection that accepts no write until its gate is opened (a slow reader).
+type zzGated struct {
+	zzConn
+	gate chan struct{}
+}
+
+func (c *zzGated) Write(ctx context.Context, rpc *Rpc) error {
+	select {
+	case <-c.gate:
+	case <-ctx.Done():
+		return ctx.Err()
+	}
+	return c.zzConn.Write(ctx, rpc)
+}
+
+// H_C16_burst: peer A sends a burst of n envelopes to peer B while B's connection accepts nothing
+// (n may exceed the proxy's per-destination buffer); then B catches up. Whatever reaches B arrives
+// in A's sending order, each envelope at most once, and at least the buffered ones arrive.
+// (Envelopes beyond the buffer are dropped by the proxy: that loss is the recorded known finding of
+// C16 and is not asserted here.)
+func H_C16_burst() {
+	n := vfParam("n", 19)
+	ctx, cancel := context.WithCancel(context.Background())
+	_ = cancel
+	dial := func(id string) (RpcReadWriter, error) { return nil, errors.New("unreachable") }
+	p := NewProxy(ctx, "proxy", dial, nil, nil)
+	a := newZZConn()
+	b := &zzGated{zzConn: *newZZConn(), gate: make(chan struct{})}
+	p.AddClient("A", a)
+	p.AddClient("B", b)
+	go func() {
+		vfHarnessGoroutine()
+		p.Serve()
+	}()
+	sent := 0
+	go func() {
+		for i := 0; i < n; i++ {
+			a.in <- zzEnv("A", "B", uint64(i+1))
+		}
+		sent = n
+		close(b.gate)
+	}()
+	vfAtQuiescence(func() {
+		vfAssert(sent == n, "sender-never-blocked-by-the-slow-peer")
+		w := b.written()
+		min := n
+		if min > 16 {
+			min = 16
+		}
+		vfAssert(len(w) >= min, "buffered-envelopes-arrive")
+		last := uint64(0)
+		for _, r := range w {
+			vfAssert(r.Id > last, "per-pair-order-kept-and-no-duplicates")
+			last = r.Id
+		}
+		vfReach("checked")
+	})
+}
